@@ -16,7 +16,9 @@ META = {
     "ModuleLoader over that target and from a ChoiceLoader([ModuleLoader, source loader]); the rendered text or exception "
     "class must equal rendering from source.  Statement programs (single templates) are included as one-template sets.  "
     "Template sets in which some template does not compile are rendered too: the template that fails must fail the same "
-    "way when reached through the ChoiceLoader fallback.",
+    "way when reached through the ChoiceLoader fallback.  A second part shares ONE loader object between two environments "
+    "with different runtime configuration (filters, tests, globals, undefined type) and runs every sequence (up to length 4) of "
+    "load/render operations of the two: the ModuleLoader world must behave exactly like the source-loader world.",
     "note": "Corpus bounds of vf/corpus.py; templates passed as objects in the data are loaded from the environment under "
     "test (so from the precompiled modules); from_string templates are compiled from source in both worlds.",
     "design_ref": "DESIGN.md §4 C31",
@@ -72,12 +74,88 @@ def shard(arg):
     return p
 
 
+# ------------------------------------------------------------------ one loader shared by two environments
+SHARED = {
+    "t": "{{ x|tag }}|{{ x is marked }}|{{ g }}|{% include 'inc' %}|{% import 'lib' as l %}{{ l.m(x) }}",
+    "inc": "i{{ x|tag }}{{ g }}",
+    "lib": "{% macro m(v) %}[{{ v|tag }}{{ g }}]{% endmacro %}",
+    "child": "{% extends 'base' %}{% block b %}c{{ x|tag }}{{ super() }}{% endblock %}",
+    "base": "B({% block b %}b{{ g }}{{ x|tag }}{% endblock %})",
+    "undef": "{{ nope }}|{{ nope|default('d') }}|{{ x|tag }}",
+}
+
+
+def shared_shard(arg):
+    """every order of load/render operations of two differently configured environments on ONE loader object;
+    the ModuleLoader world must behave like the source-loader world"""
+    import itertools
+
+    import jinja2
+
+    zmode, name = arg
+    p = core.Part()
+    root = core.scratch_dir("c31s")
+    target = os.path.join(root, "t" + ("" if zmode is None else ".zip"))
+    cenv = jinja2.Environment(loader=jinja2.DictLoader(dict(SHARED)))
+    cenv.filters["tag"] = lambda v: v
+    cenv.tests["marked"] = lambda v: True
+    cenv.compile_templates(target, zip=zmode, log_function=lambda m: None)
+
+    def world(loader):
+        envs = []
+        for i in (0, 1):
+            # only RUNTIME configuration differs (filters, tests, globals, undefined type); compile-time options
+            # are baked into precompiled code by design and are equal to the compiling environment's
+            e = jinja2.Environment(loader=loader, undefined=jinja2.Undefined if i == 0 else jinja2.ChainableUndefined)
+            e.filters["tag"] = (lambda v, i=i: f"<{i}:{v}>")
+            e.tests["marked"] = (lambda v, i=i: bool(i))
+            e.globals["g"] = f"g{i}"
+            envs.append(e)
+        return envs
+
+    ops = [("load", 0), ("load", 1), ("render", 0), ("render", 1)]
+    for n in range(1, 5):
+        for seq in itertools.product(ops, repeat=n):
+            outs = []
+            for mk in (lambda: jinja2.DictLoader(dict(SHARED)), lambda: jinja2.ModuleLoader(target)):
+                envs = world(mk())
+                held = {}
+                res = []
+                for op, i in seq:
+                    if op == "load":
+                        held[i] = corpus.outcome(lambda: envs[i].get_template(name))
+                        res.append("loaded" if not isinstance(held[i], tuple) else held[i])
+                    else:
+                        t = held.get(i)
+                        if t is None or isinstance(t, tuple):
+                            res.append("-")
+                        else:
+                            res.append(corpus.outcome(lambda: t.render(x="X")))
+                outs.append(res)
+            p.evals += 1
+            if n <= 2:
+                p.sig(("shared", zmode, name, str(outs[0])[:40]))
+            if outs[0] != outs[1]:
+                p.violation(f"C31/shared-loader/{name}", {
+                    "msg": f"zip={zmode} template {name!r} ops {seq}: via ModuleLoader {outs[1]!r}; via source loader {outs[0]!r}",
+                    "script": "print(%r)\n" % {"ops": seq, "template": SHARED[name], "zip": zmode}})
+    p.sample({"part": "shared loader", "template": name, "zip": zmode, "ops": "all sequences of load/render by env 0/1 up to length 4"}, cap=1)
+    shutil.rmtree(root, ignore_errors=True)
+    return p
+
+
+def dispatch(arg):
+    return shared_shard(arg[1]) if arg[0] == "s" else shard(arg[1])
+
+
 def run(ctx: core.Ctx):
     core.import_all_jinja()
     ctx.rule = ("every corpus item x zip mode (directory, stored, deflated) x loader (ModuleLoader, ChoiceLoader with source "
                 "fallback); distinct = distinct (corpus kind, output prefix)")
     ctx.assumptions += ["ModuleLoader keeps imported modules in sys.modules under a per-loader package name; each case uses a fresh loader and target"]
     n = 64
-    ctx.pmap(shard, [(ctx.tier, k, n) for k in range(n)])
+    shards = [("c", (ctx.tier, k, n)) for k in range(n)]
+    shards += [("s", (z, name)) for z in (None, "stored", "deflated") for name in ("t", "child", "undef", "lib")]
+    ctx.pmap(dispatch, shards)
     ctx.cov["bounds"] = {"corpus": str(corpus.BOUNDS["small" if ctx.quick else "quick"]),
                          "zip_modes": [None, "deflated"] if ctx.quick else [None, "stored", "deflated"]}
